@@ -2,7 +2,7 @@
    the round-trip theorem covers, evaluated by the kernel on every build.            *)
 From Coq Require Import NArith ZArith List String Bool.
 From V Require Import Base.UString Base.Json Model.SchemaTypes Model.PyBase Model.Schema.
-From V Require Import Proofs.C01Roundtrip Proofs.C01Parse Proofs.C01Bundle Gen.Tables.
+From V Require Import Proofs.C01Roundtrip Proofs.C01Parse Proofs.C01Bundle Proofs.C01Observed Gen.Tables.
 Import ListNotations.
 
 Definition lib_proved_ids : list ustring := Eval vm_compute in proved_ids variant_repaired lib.
@@ -38,6 +38,16 @@ Proof. vm_compute. reflexivity. Qed.
 Lemma lib_parse_ok : forallb (fun k => match find_class (wclasses lib) k with Some c => parse_class_ok lib c | None => false end) lib_parse_ids = true.
 Proof. vm_compute. reflexivity. Qed.
 
+(* ... and over the wider constructor-level set (with MarkingDefinition and 2.1 Indicator) *)
+Definition lib_parse_idsw : list ustring :=
+  Eval vm_compute in filter (fun k => match find_class (wclasses lib) k with Some c => parse_class_ok lib c | None => false end) lib_proved_idsw.
+
+Lemma lib_parse_subw : forallb (fun k => mem_ustr k lib_proved_idsw) lib_parse_idsw = true.
+Proof. vm_compute. reflexivity. Qed.
+
+Lemma lib_parse_okw : forallb (fun k => match find_class (wclasses lib) k with Some c => parse_class_ok lib c | None => false end) lib_parse_idsw = true.
+Proof. vm_compute. reflexivity. Qed.
+
 Lemma lib_registry_ok : registry_ok lib = true.
 Proof. vm_compute. reflexivity. Qed.
 
@@ -54,9 +64,22 @@ Lemma lib_bundle_okb : forallb (fun k => match find_class (wclasses lib) k with
                                          end) lib_bundle_ids = true.
 Proof. vm_compute. reflexivity. Qed.
 
+(* ObservedData in its 2.1 form (no `objects` member): Proofs/C01Observed.v *)
+Definition lib_observed_ids : list ustring :=
+  Eval vm_compute in filter (fun k => match find_class (wclasses lib) k with
+                                      | Some c => observed_ok variant_repaired lib lib_proved_idsw c
+                                      | None => false
+                                      end) (filter (fun x => negb (mem_ustr x lib_bundle_ids)) lib_unproved_ids0).
+
+Lemma lib_observed_okb : forallb (fun k => match find_class (wclasses lib) k with
+                                           | Some c => observed_ok variant_repaired lib lib_proved_idsw c
+                                           | None => false
+                                           end) lib_observed_ids = true.
+Proof. vm_compute. reflexivity. Qed.
+
 (* classes covered by neither theorem *)
 Definition lib_unproved_ids : list ustring :=
-  Eval vm_compute in filter (fun x => negb (mem_ustr x lib_bundle_ids)) lib_unproved_ids0.
+  Eval vm_compute in filter (fun x => negb (mem_ustr x lib_bundle_ids) && negb (mem_ustr x lib_observed_ids)) lib_unproved_ids0.
 
 Definition lib_coverage : nat * nat :=
   Eval vm_compute in (List.length lib_proved_idsw + List.length lib_bundle_ids, List.length (wclasses lib))%nat.
